@@ -43,11 +43,15 @@ def _c05(prop, cfg, ops, log, outcome):
     ev = index_events(ops)
     ds = {"enabled": False, "mode": "teleop"}
     ds_at = {}
+    utia, utia_at = bool(cfg["use_teleop_in_auto"]), {}      # (changed only outside autonomous periods)
     for i, r in enumerate(log):
         ds_at[i] = "disabled" if not ds["enabled"] else ds["mode"]
+        utia_at[i] = utia
         for act in list(ev.get((r[0], r[1]), ())) + list(ev.get((r[0], "*"), ())):
             if act[0] == "ds":
                 ds = {"enabled": bool(act[1]), "mode": act[2]}
+            elif act[0] == "utia":
+                utia = bool(act[1])
     for (a, b) in segs:
         w = log[b]
         body = log[a:b]
@@ -82,8 +86,8 @@ def _c05(prop, cfg, ops, log, outcome):
             it_sites = [s for s in sites if s.endswith(".on_iteration")]
             if len(it_sites) > 1:
                 _fail(prop, "two_modes_ran", a + k, f"{it_sites}")
-            if cfg["use_teleop_in_auto"] != ("robot.teleopPeriodic" in sites):
-                _fail(prop, "teleop_in_auto", a + k, f"use_teleop_in_autonomous={cfg['use_teleop_in_auto']} but the autonomous iteration ran {sites}")
+            if utia_at[a + k] != ("robot.teleopPeriodic" in sites):
+                _fail(prop, "teleop_in_auto", a + k, f"use_teleop_in_autonomous={utia_at[a + k]} but the autonomous iteration ran {sites}")
         if len(fbs) != len(set(fbs)) or len(fbs) != nfb:
             _fail(prop, "feedbacks_once", a + k, f"feedback getters of the iteration: {fbs} (expected each of {nfb} once)")
         if sites[-1] != "robot.robotPeriodic" or sites.count("robot.robotPeriodic") != 1:
